@@ -50,6 +50,7 @@ def ma_world(rng, n_agents=None, numeric=None, extra_random=True) -> gen.W:
         A.append({"name": "recharge", "params": [("?a", "ag")], "pre": ["and", ["<=", ["energy", "?a"], "3"]],
                   "eff": ["and", ["increase", ["energy", "?a"], "2"]]})
         A.append({"name": "tally", "params": [("?a", "ag")], "pre": ["and"], "eff": ["and", ["increase", ["total"], ["load", "?a"]]]})
+        A.append({"name": "reset", "params": [("?a", "ag")], "pre": ["and", ["free", "?a"]], "eff": ["and", ["assign", ["total"], "0"]]})
         A.append({"name": "sync", "params": [("?a", "ag"), ("?b", "ag")], "pre": ["and", ["not", ["=", "?a", "?b"]]],
                   "eff": ["and", ["assign", ["energy", "?a"], ["energy", "?b"]]]})
     if rng.random() < 0.5:
@@ -58,7 +59,8 @@ def ma_world(rng, n_agents=None, numeric=None, extra_random=True) -> gen.W:
         A.append({"name": "archive", "params": [("?a", "ag"), ("?i", "item")], "pre": ["and", ["done", "?i"], ["free", "?a"]],
                   "eff": ["and", ["not", ["done", "?i"]], ["open"]]})
     rng.shuffle(A)
-    keep = max(4, int(len(A) * rng.uniform(0.6, 1.0)))
+    A.sort(key=lambda a: a["name"] not in ("tally", "reset", "move"))  # the shared-fluent writers are always kept
+    keep = max(5, int(len(A) * rng.uniform(0.6, 1.0)))
     A = sorted(A[:keep], key=lambda a: a["name"])
     if not any(a["name"] == "move" for a in A):
         pass
